@@ -417,11 +417,31 @@ func vScenarioC18(rc *runCtx) {
 		}
 		w.Disk = df
 	}
+	// the peer may die at the very moment the user opens the question (nothing it sends arrives any more): the
+	// pause then ends in an error, never in a hang
+	peerDies := !hiccup && tp.Bool("c18.peerdies", 120)
+	peerDead := false
+	if peerDies {
+		prev := x.down[0].Mangle
+		x.down[0].Mangle = func(l *verifsim.Link, d []byte) []byte {
+			if prev != nil {
+				d = prev(l, d)
+			}
+			if peerDead {
+				return nil
+			}
+			return d
+		}
+	}
 	var arm func()
 	arm = func() {
 		vOnChunk(rc, x, armed, pm, func() {
 			rc.fault("pause")
 			x.paused = true
+			if peerDies && !peerDead {
+				peerDead = true
+				rc.fault("peer-dies-at-pause")
+			}
 			if hiccup {
 				stallFor = lead + d + extra + 200*time.Millisecond
 				stallArmedAt = w.Now()
@@ -478,7 +498,7 @@ func vScenarioC18(rc *runCtx) {
 			done, d, T, rep.serverExited, clientBusy, w.Now(), vClip(rep.clientFail, 100), vClip(rep.serverFail, 100), vClip(w.ParkedSummary(), 400))
 		return
 	}
-	if band == "short" {
+	if band == "short" && !peerDead {
 		vCheckFidelity(rc, x, rep, before, true)
 		if rc.res.Class == "violation" {
 			rc.res.Sig = strings.Replace(rc.res.Sig, "C01:", "C18:short:", 1)
